@@ -782,6 +782,7 @@ def _render(v, note=""):
                + ", ".join("." + s for s in v["tpcnProposeShape"]) + "]\n")
     out.append("/-- statement shape of `RWMRunner._propose` -/\ndef rwmProposeShape : List PStage :=\n  ["
                + ", ".join("." + s for s in v["rwmProposeShape"]) + "]\n")
+    out.append(_run_section())      # run loop / constructor / dispatch (C03 second audit; only ADDS definitions)
     out.append("end Gen.Kernel\n")
     return "\n".join(out)
 
@@ -800,6 +801,613 @@ def generate():
         return ("G4-kernel", "unavailable", why)
     changed = common.write_if_changed(OUT, text)
     return ("G4-kernel", "ok", f"{os.path.relpath(OUT, common.VERIF)} {'rewritten' if changed else 'unchanged'}")
+
+
+# ============================================================================= the run loop around the step (C03, second audit)
+# Everything below only ADDS definitions to Gen/Kernel.lean (section `_run_section`, emitted just before `end Gen.Kernel`):
+#
+#   scalar expressions   sigma0Of ndim                                   BaseMCMCRunner.__init__   (`self.sigma_0 = ...`)
+#                        tpcnInitSigma / rwmInitSigma sigma0              the two `_initialize_sigmas` (one entry of the vector)
+#                        adaptiveSteps nsteps ndim nmax acc wsigma sigma0 `_calculate_adaptive_steps` (incl. the `int(...)`)
+#                        convergedRule iter steps                         `_check_convergence`
+#                        retEfficiency / retAcceptance                    the two computed return values of `run`
+#                        nCallsStep ncalls nwalkers, iterStep iter        the two counters
+#   tables (closed enumerations, so that `decide` works)
+#                        writeSites     every statement of mcmc.py that writes (assign / augmented / subscript store / in-place
+#                                       call) one of the watched `self.` attributes, with the enclosing function
+#                        selfRefs       every reference to `self._adapt_sigma`, `self._evaluate_likelihood`, ... with the function
+#                        dispatchRule, wrapperRunner, bindTable, initStores, returnTuple, weightedSigmaPairing, curAccSource
+#
+# The two site tables are produced by a plain walk over the AST and can not be `unavailable`; each expression group falls back
+# to its reference separately (status of this part: `RUN_STATUS`, reported as translator `G4-kernel-run`).
+
+RUN_STATUS = ("G4-kernel-run", "unavailable", "not generated in this process")
+
+W_ATTRS = {"self.assignments": "assignments", "self.sigmas": "sigmas", "self.mode_stats": "modeStats", "self.means": "means",
+           "self.inv_covs": "invCovs", "self.chol_covs": "cholCovs", "self.degrees_of_freedom": "dof", "self.beta": "beta",
+           "self.periodic": "periodic", "self.reflective": "reflective", "self.n_calls": "nCalls",
+           "self.iteration": "iteration", "self.sigma_0": "sigma0", "self.n_steps": "nSteps", "self.n_max": "nMax",
+           "self.n_dim": "nDim", "self.n_walkers": "nWalkers", "self.n_clusters": "nClusters"}
+W_FUNCS = {"BaseMCMCRunner.__init__": "baseInit", "TPCNRunner.__init__": "tpcnInit", "RWMRunner.__init__": "rwmInit",
+           "TPCNRunner._adapt_sigma": "tpcnAdapt", "RWMRunner._adapt_sigma": "rwmAdapt",
+           "BaseMCMCRunner._evaluate_likelihood": "evaluate", "BaseMCMCRunner.run": "run",
+           "BaseMCMCRunner._check_convergence": "checkConv", "BaseMCMCRunner._calculate_adaptive_steps": "calcAdaptive",
+           "BaseMCMCRunner._update_progress_bar": "progress", "parallel_mcmc": "dispatcher",
+           "parallel_t_preconditioned_crank_nicolson": "tpcnWrapper", "parallel_random_walk_metropolis": "rwmWrapper"}
+W_CALLEES = {"_adapt_sigma": "adaptSigma", "_evaluate_likelihood": "evaluate", "_check_convergence": "checkConvergence",
+             "_calculate_adaptive_steps": "calcAdaptive", "_initialize_sigmas": "initSigmas", "_propose": "propose",
+             "_compute_acceptance_factor": "factor", "run": "runLoop"}
+P_NAMES = {"u": "u", "x": "x", "logl": "logl", "blobs": "blobs", "assignments": "assignments", "beta": "beta",
+           "mode_stats": "modeStats", "log_likelihood": "logLikelihood", "prior_transform": "priorTransform",
+           "progress_bar": "progressBar", "n_steps": "nSteps", "n_max": "nMax", "periodic": "periodic",
+           "reflective": "reflective", "verbose": "verbose", "sample": "sample"}
+D_TARGETS = {"parallel_random_walk_metropolis": "rwmWrapper", "parallel_t_preconditioned_crank_nicolson": "tpcnWrapper",
+             "TPCNRunner": "tpcnRunner", "RWMRunner": "rwmRunner"}
+MUTATORS = {"fill", "sort", "put", "itemset", "resize", "partition", "setfield", "setflags", "byteswap", "clear", "append",
+            "extend", "insert", "pop", "remove", "update", "reverse", "__setitem__", "__iadd__", "__imul__", "__isub__"}
+NP_INPLACE = {"np.copyto", "np.put", "np.place", "np.putmask", "np.put_along_axis", "np.fill_diagonal", "np.random.shuffle"}
+
+RUN_PRELUDE = '''/-! ## run loop, constructor and dispatch (second audit of C03; ADDED by `_run_section`, nothing above is changed) -/
+
+/-- watched attributes of the runners -/
+inductive WAttr
+  | assignments | sigmas | modeStats | means | invCovs | cholCovs | dof | beta | periodic | reflective | nCalls | iteration
+  | sigma0 | nSteps | nMax | nDim | nWalkers | nClusters
+  deriving DecidableEq, Repr
+
+/-- functions of tempest/mcmc.py (closed list; everything else is `other`) -/
+inductive WFn
+  | baseInit | tpcnInit | rwmInit | tpcnAdapt | rwmAdapt | evaluate | run | checkConv | calcAdaptive | progress | dispatcher
+  | tpcnWrapper | rwmWrapper | other
+  deriving DecidableEq, Repr
+
+/-- how an attribute is written: `self.a = …`, augmented assignment (also into a subscript), `self.a[…] = …` /
+    `self.a.b = …`, anything else (in-place method, `out=`, `del`, loop target, …) -/
+inductive WHow
+  | assign | aug | store | other
+  deriving DecidableEq, Repr
+
+inductive WCallee
+  | adaptSigma | evaluate | checkConvergence | calcAdaptive | initSigmas | propose | factor | runLoop
+  deriving DecidableEq, Repr
+
+/-- the 15 runner arguments (+ `sample`) -/
+inductive Param
+  | u | x | logl | blobs | assignments | beta | modeStats | logLikelihood | priorTransform | progressBar | nSteps | nMax
+  | periodic | reflective | verbose | sample | other
+  deriving DecidableEq, Repr
+
+inductive DCond
+  | sampleEqRwm | otherwise | other
+  deriving DecidableEq, Repr
+
+inductive DTarget
+  | rwmWrapper | tpcnWrapper | tpcnRunner | rwmRunner | other
+  deriving DecidableEq, Repr
+
+/-- which step sizes `np.average` pairs with the populations of the non-empty clusters: `self.sigmas[:len(cluster_sizes)]`
+    (the FIRST m), or something else -/
+inductive WPair
+  | firstM | other
+  deriving DecidableEq, Repr
+
+/-- what `current_acceptance` is: `mask_accept.mean()`, `alpha.mean()`, something else -/
+inductive AccSrc
+  | maskMean | alphaMean | other
+  deriving DecidableEq, Repr
+
+inductive RetSlot
+  | u | x | logl | blobs | efficiency | acceptance | iteration | nCalls | other
+  deriving DecidableEq, Repr
+'''
+
+
+class EvRun(Ev):
+    """the evaluator plus the three idioms of the run loop: `a >= b`, `int(x)` (of a non-negative value), `np.ones(n_clusters)`"""
+
+    def ev(self, node):
+        if isinstance(node, ast.Compare) and len(node.ops) == 1 and isinstance(node.ops[0], ast.GtE):
+            a, b = self.ev(node.left), self.ev(node.comparators[0])
+            if isinstance(a, S) and isinstance(b, S):
+                return S(f"(Sc.le {b.lean} {a.lean})", a.fv | b.fv)
+            self.fail(node, "comparison of non-scalars")
+        return super().ev(node)
+
+    def call(self, node):
+        f = _dotted(node.func)
+        if f == "int" and len(node.args) == 1 and not node.keywords:
+            a = self.ev(node.args[0])
+            if isinstance(a, S):
+                return S(f"(Sc.floor {a.lean})", a.fv)
+            self.fail(node, "int() of a non-scalar")
+        if f == "np.ones" and len(node.args) == 1 and not node.keywords and _src(node.args[0]) == "self.n_clusters":
+            return S("(Sc.ofNat 1)")
+        return super().call(node)
+
+
+def _lean_str(s):
+    return '"' + s.replace("\\", "\\\\").replace('"', '\\"').replace("\n", " ") + '"'
+
+
+def _all_funcs(tree):
+    """(qualified name, node) of every function / method; module- and class-level statements as pseudo functions"""
+    top = []
+    for node in tree.body:
+        if isinstance(node, (ast.FunctionDef, ast.AsyncFunctionDef)):
+            yield node.name, [node]
+        elif isinstance(node, ast.ClassDef):
+            rest = []
+            for f in node.body:
+                if isinstance(f, (ast.FunctionDef, ast.AsyncFunctionDef)):
+                    yield f"{node.name}.{f.name}", [f]
+                else:
+                    rest.append(f)
+            if rest:
+                yield f"{node.name}.<class body>", rest
+        else:
+            top.append(node)
+    if top:
+        yield "<module>", top
+
+
+def _watch_root(node):
+    cur = node
+    while True:
+        d = _dotted(cur)
+        if d in W_ATTRS:
+            return d
+        if isinstance(cur, (ast.Subscript, ast.Attribute, ast.Starred)):
+            cur = cur.value
+        else:
+            return None
+
+
+def _flat_targets(t):
+    if isinstance(t, (ast.Tuple, ast.List)):
+        for e in t.elts:
+            yield from _flat_targets(e)
+    else:
+        yield t
+
+
+def _site_tables(tree):
+    writes, refs = [], []
+    for qual, nodes in _all_funcs(tree):
+        fn = W_FUNCS.get(qual, "other")
+
+        def rec(target, exact_how, inner_how):
+            root = _watch_root(target)
+            if root is None:
+                return
+            exact = _dotted(target) in W_ATTRS
+            writes.append((W_ATTRS[root], fn, exact_how if exact else inner_how, f"{qual}: {_src(target)[:60]}"))
+
+        for top in nodes:
+            for n in ast.walk(top):
+                if isinstance(n, ast.Assign):
+                    for t in n.targets:
+                        for e in _flat_targets(t):
+                            rec(e, "assign", "store")
+                elif isinstance(n, ast.AnnAssign) and n.value is not None:
+                    rec(n.target, "assign", "store")
+                elif isinstance(n, ast.AugAssign):
+                    rec(n.target, "aug", "aug")
+                elif isinstance(n, (ast.For, ast.AsyncFor)):
+                    for e in _flat_targets(n.target):
+                        rec(e, "other", "other")
+                elif isinstance(n, (ast.With, ast.AsyncWith)):
+                    for it in n.items:
+                        if it.optional_vars is not None:
+                            for e in _flat_targets(it.optional_vars):
+                                rec(e, "other", "other")
+                elif isinstance(n, ast.Delete):
+                    for t in n.targets:
+                        for e in _flat_targets(t):
+                            rec(e, "other", "other")
+                elif isinstance(n, ast.NamedExpr):
+                    rec(n.target, "other", "other")
+                elif isinstance(n, ast.Call):
+                    if isinstance(n.func, ast.Attribute) and n.func.attr in MUTATORS and _watch_root(n.func.value):
+                        writes.append((W_ATTRS[_watch_root(n.func.value)], fn, "other", f"{qual}: {_src(n.func)[:60]}(...)"))
+                    for k in n.keywords:
+                        if k.arg == "out" and _watch_root(k.value):
+                            writes.append((W_ATTRS[_watch_root(k.value)], fn, "other", f"{qual}: out={_src(k.value)[:50]}"))
+                    if _dotted(n.func) in NP_INPLACE and n.args and _watch_root(n.args[0]):
+                        writes.append((W_ATTRS[_watch_root(n.args[0])], fn, "other", f"{qual}: {_dotted(n.func)}({_src(n.args[0])[:40]}, ...)"))
+                if isinstance(n, ast.Attribute) and n.attr in W_CALLEES and isinstance(n.ctx, ast.Load) \
+                        and not (n.attr == "run" and _dotted(n.value) in ("np", "numpy")):
+                    refs.append((W_CALLEES[n.attr], fn, f"{qual}: {_src(n)[:60]}"))
+    return writes, refs
+
+
+def _module_func(tree, name):
+    for node in tree.body:
+        if isinstance(node, ast.FunctionDef) and node.name == name:
+            return node
+    raise Unavailable(f"function {name} not found")
+
+
+def _plain_params(fn, where, drop_self=False):
+    a = fn.args
+    if a.posonlyargs or a.kwonlyargs or a.vararg or a.kwarg:
+        raise Unavailable(f"{where}: signature is not a plain parameter list")
+    ps = [x.arg for x in a.args]
+    if drop_self:
+        if not ps or ps[0] != "self":
+            raise Unavailable(f"{where}: no self")
+        ps = ps[1:]
+    return ps
+
+
+def _bind(call, params, where):
+    """Python's binding of a call's positional and keyword arguments to the callee's parameters -> [(param, passed name)]"""
+    for a in call.args:
+        if isinstance(a, ast.Starred):
+            raise Unavailable(f"{where}: starred argument")
+    if any(k.arg is None for k in call.keywords):
+        raise Unavailable(f"{where}: ** argument")
+    if len(call.args) > len(params):
+        raise Unavailable(f"{where}: too many positional arguments")
+    pairs = []
+    for p, a in zip(params, call.args):
+        pairs.append((p, a))
+    seen = {p for p, _ in pairs}
+    for k in call.keywords:
+        if k.arg not in params or k.arg in seen:
+            raise Unavailable(f"{where}: keyword {k.arg} does not bind")
+        seen.add(k.arg)
+        pairs.append((k.arg, k.value))
+    pairs.sort(key=lambda pa: params.index(pa[0]))
+    return [(P_NAMES.get(p, "other"), P_NAMES.get(a.id, "other") if isinstance(a, ast.Name) else "other") for p, a in pairs]
+
+
+def _return_call(st, where):
+    if isinstance(st, ast.Return) and isinstance(st.value, ast.Call) and isinstance(st.value.func, ast.Name):
+        return st.value
+    raise Unavailable(f"{where}: branch is not `return f(...)`")
+
+
+def _dispatch(tree):
+    """parallel_mcmc: the branch on `sample`, the two wrappers, the constructor bindings"""
+    pm = _module_func(tree, "parallel_mcmc")
+    body = _body(pm)
+    if len(body) != 1 or not isinstance(body[0], ast.If) or len(body[0].body) != 1 or len(body[0].orelse) != 1:
+        raise Unavailable("parallel_mcmc: body is not one if/else of returns")
+    test = body[0].test
+    cond = "other"
+    if isinstance(test, ast.Compare) and len(test.ops) == 1 and isinstance(test.ops[0], ast.Eq) \
+            and _src(test.left) == "sample" and isinstance(test.comparators[0], ast.Constant) \
+            and test.comparators[0].value == "rwm":
+        cond = "sampleEqRwm"
+    rule, binds = [], []
+    for c, st in ((cond, body[0].body[0]), ("otherwise", body[0].orelse[0])):
+        call = _return_call(st, "parallel_mcmc")
+        tgt = D_TARGETS.get(call.func.id, "other")
+        rule.append((c, tgt))
+        callee = _module_func(tree, call.func.id)
+        binds.append((f"parallel_mcmc -> {call.func.id}", _bind(call, _plain_params(callee, call.func.id), "parallel_mcmc")))
+    base = _plain_params(_find_method(tree, "BaseMCMCRunner", "__init__"), "BaseMCMCRunner.__init__", drop_self=True)
+    wrappers = []
+    for wname in ("parallel_t_preconditioned_crank_nicolson", "parallel_random_walk_metropolis"):
+        w = _module_func(tree, wname)
+        wb = _body(w)
+        if len(wb) != 2:
+            raise Unavailable(f"{wname}: body is not `runner = Cls(...); return runner.run()`")
+        sa = _simple_assign(wb[0])
+        if not sa or not isinstance(sa[1], ast.Call) or not isinstance(sa[1].func, ast.Name):
+            raise Unavailable(f"{wname}: first statement is not a constructor call")
+        if not (isinstance(wb[1], ast.Return) and wb[1].value is not None and _src(wb[1].value) == f"{sa[0]}.run()"):
+            raise Unavailable(f"{wname}: does not return runner.run()")
+        cls = sa[1].func.id
+        # the subclass constructor must pass everything through to BaseMCMCRunner.__init__
+        cdef = [n for n in tree.body if isinstance(n, ast.ClassDef) and n.name == cls]
+        if not cdef or [_src(b) for b in cdef[0].bases] != ["BaseMCMCRunner"]:
+            raise Unavailable(f"{wname}: class {cls} is not a direct subclass of BaseMCMCRunner")
+        ci = _find_method(tree, cls, "__init__")
+        a = ci.args
+        if [x.arg for x in a.args] != ["self"] or a.vararg is None or a.kwarg is None or a.kwonlyargs or a.posonlyargs \
+                or not _body(ci) or _src(_body(ci)[0]) != f"super().__init__(*{a.vararg.arg}, **{a.kwarg.arg})":
+            raise Unavailable(f"{cls}.__init__ does not pass (*args, **kwargs) through to the base constructor")
+        wrappers.append((D_TARGETS.get(wname, "other"), D_TARGETS.get(cls, "other")))
+        binds.append((f"{wname} -> {cls}", _bind(sa[1], base, wname)))
+    # what the base constructor stores
+    stores = []
+    init = _find_method(tree, "BaseMCMCRunner", "__init__")
+    for st in _body(init):
+        if isinstance(st, ast.Assign) and len(st.targets) == 1 and isinstance(st.targets[0], ast.Attribute) \
+                and _src(st.targets[0].value) == "self":
+            attr, v = st.targets[0].attr, st.value
+            src, copied = None, False
+            if isinstance(v, ast.Name):
+                src = v.id
+            elif isinstance(v, ast.Call) and isinstance(v.func, ast.Attribute) and v.func.attr == "copy" and not v.args \
+                    and not v.keywords and isinstance(v.func.value, ast.Name):
+                src, copied = v.func.value.id, True
+            elif isinstance(v, ast.IfExp) and isinstance(v.orelse, ast.Constant) and v.orelse.value is None \
+                    and isinstance(v.body, ast.Call) and _src(v.body).endswith(".copy()") \
+                    and isinstance(v.body.func.value, ast.Name) and _src(v.test) == f"{v.body.func.value.id} is not None":
+                src, copied = v.body.func.value.id, True
+            if src is not None and src in base:
+                stores.append((P_NAMES.get(attr, "other"), P_NAMES.get(src, "other"), copied))
+    return dict(dispatchRule=rule, wrapperRunner=wrappers, bindTable=binds, initStores=stores)
+
+
+POPULATION_LOOP = ("for c in range(self.n_clusters):\n    cluster_size = np.sum(self.assignments == c)\n"
+                   "    if cluster_size > 0:\n        cluster_sizes.append(cluster_size)")
+
+
+def _scalars_init(tree):
+    init = _find_method(tree, "BaseMCMCRunner", "__init__")
+    s0 = None
+    for st in _body(init):
+        if isinstance(st, ast.Assign) and len(st.targets) == 1 and _src(st.targets[0]) == "self.sigma_0":
+            if s0 is not None:
+                raise Unavailable("BaseMCMCRunner.__init__: sigma_0 assigned twice")
+            s0 = _need_fv(EvRun({"self.n_dim": S("ndim", {"ndim"})}, "BaseMCMCRunner.__init__").ev(st.value), ["ndim"], "sigma_0")
+    if s0 is None:
+        raise Unavailable("BaseMCMCRunner.__init__: no assignment to self.sigma_0")
+    out = {"sigma0Of": s0.lean}
+    for cls, key in (("TPCNRunner", "tpcnInitSigma"), ("RWMRunner", "rwmInitSigma")):
+        fn = _find_method(tree, cls, "_initialize_sigmas")
+        where = f"{cls}._initialize_sigmas"
+        if [a.arg for a in fn.args.args] != ["self"]:
+            raise Unavailable(f"{where}: signature changed")
+        ev = EvRun({"self.sigma_0": S("sigma0", {"sigma0"})}, where)
+        b = _body(fn)
+        if len(b) != 1 or not isinstance(b[0], ast.Return) or b[0].value is None:
+            raise Unavailable(f"{where}: body is not a single return")
+        r = ev.ev(b[0].value)
+        if not isinstance(r, S):
+            raise Unavailable(f"{where}: not a scalar multiple of np.ones(n_clusters)")
+        out[key] = _need_fv(r, ["sigma0"], where).lean
+    return out
+
+
+def _scalars_steps(tree):
+    fn = _find_method(tree, "BaseMCMCRunner", "_calculate_adaptive_steps")
+    where = "BaseMCMCRunner._calculate_adaptive_steps"
+    if [a.arg for a in fn.args.args] != ["self", "current_acceptance"]:
+        raise Unavailable(f"{where}: signature changed")
+    ev = EvRun({"self.n_steps": S("nsteps", {"nsteps"}), "self.n_dim": S("ndim", {"ndim"}), "self.n_max": S("nmax", {"nmax"}),
+                "current_acceptance": S("acc", {"acc"}), "self.sigma_0": S("sigma0", {"sigma0"})}, where)
+    body = _body(fn)
+    if len(body) < 5 or _src(body[0]) != "cluster_sizes = []" or _src(body[1]) != POPULATION_LOOP \
+            or _src(body[2]) != "cluster_sizes = np.array(cluster_sizes)":
+        raise Unavailable(f"{where}: the population block (sizes of the non-empty clusters) is not in the recognised shape")
+    sa = _simple_assign(body[3])
+    pairing = None
+    if sa and isinstance(sa[1], ast.Call) and _dotted(sa[1].func) == "np.average" and len(sa[1].args) == 1 \
+            and [k.arg for k in sa[1].keywords] == ["weights"] and _src(sa[1].keywords[0].value) == "cluster_sizes":
+        if _src(sa[1].args[0]) == "self.sigmas[:len(cluster_sizes)]":
+            pairing = "firstM"
+    if pairing is None:
+        raise Unavailable(f"{where}: weighted sigma is not np.average(self.sigmas[:len(cluster_sizes)], weights=cluster_sizes)")
+    ev.env[sa[0]] = S("wsigma", {"wsigma"})
+    res = None
+    for st in body[4:]:
+        s2 = _simple_assign(st)
+        if s2:
+            ev.env[s2[0]] = ev.ev(s2[1])
+            continue
+        if isinstance(st, ast.Return) and st.value is not None and st is body[-1]:
+            res = ev.ev(st.value)
+            continue
+        ev.fail(st, "unrecognised statement")
+    if not isinstance(res, S):
+        raise Unavailable(f"{where}: no scalar return value")
+    _need_fv(res, ["nsteps", "ndim", "nmax", "acc", "wsigma", "sigma0"], where)
+    # _check_convergence
+    cf = _find_method(tree, "BaseMCMCRunner", "_check_convergence")
+    cw = "BaseMCMCRunner._check_convergence"
+    if [a.arg for a in cf.args.args] != ["self", "current_acceptance"]:
+        raise Unavailable(f"{cw}: signature changed")
+    cb = _body(cf)
+    s3 = _simple_assign(cb[0]) if len(cb) == 2 else None
+    if not s3 or _src(s3[1]) != "self._calculate_adaptive_steps(current_acceptance)" or not isinstance(cb[1], ast.Return) \
+            or cb[1].value is None:
+        raise Unavailable(f"{cw}: body is not `n = self._calculate_adaptive_steps(current_acceptance); return <test>`")
+    ev2 = EvRun({"self.iteration": S("iter", {"iter"})}, cw)
+    ev2.env[s3[0]] = S("steps", {"steps"})
+    rule = ev2.ev(cb[1].value)
+    if not isinstance(rule, S) or not rule.lean.startswith("(Sc.l"):
+        raise Unavailable(f"{cw}: the return value is not a comparison")
+    _need_fv(rule, ["iter", "steps"], cw)
+    return {"adaptiveSteps": res.lean, "convergedRule": rule.lean, "weightedSigmaPairing": pairing}
+
+
+RET_SLOTS = {"self.u": "u", "self.x": "x", "self.logl": "logl", "self.blobs": "blobs", "self.iteration": "iteration",
+             "self.n_calls": "nCalls"}
+
+
+def _scalars_return(tree):
+    fn = _find_method(tree, "BaseMCMCRunner", "run")
+    where = "BaseMCMCRunner.run"
+    body = _body(fn)
+    if not body or not isinstance(body[0], ast.While):
+        raise Unavailable(f"{where}: body does not start with the step loop")
+    ev = EvRun({"self.sigmas.mean()": S("meanSigma", {"meanSigma"}), "self.sigma_0": S("sigma0", {"sigma0"}),
+                "alpha.mean()": S("meanAlpha", {"meanAlpha"})}, where)
+    ret = None
+    for st in body[1:]:
+        sa = _simple_assign(st)
+        if sa:
+            ev.env[sa[0]] = ev.ev(sa[1])
+            continue
+        if isinstance(st, ast.Return) and isinstance(st.value, ast.Tuple) and st is body[-1]:
+            ret = st.value
+            continue
+        ev.fail(st, "unrecognised statement after the loop")
+    if ret is None or len(ret.elts) != 8:
+        raise Unavailable(f"{where}: does not return a tuple of 8 values")
+    slots, exprs = [], {}
+    for i, e in enumerate(ret.elts):
+        t = _src(e)
+        if t in RET_SLOTS:
+            slots.append(RET_SLOTS[t])
+            continue
+        v = ev.ev(e)
+        if isinstance(v, S) and i in (4, 5):
+            slots.append("efficiency" if i == 4 else "acceptance")
+            exprs[i] = _need_fv(v, ["meanSigma", "sigma0", "meanAlpha"], f"return value {i}")
+        else:
+            slots.append("other")
+    if 4 not in exprs or 5 not in exprs:
+        raise Unavailable(f"{where}: return values 4 / 5 are not scalar expressions of sigmas.mean(), sigma_0, alpha.mean()")
+    # the acceptance the stopping rule sees, and the two counters
+    loop = body[0]
+    src = "other"
+    for st in loop.body:
+        if isinstance(st, ast.If) and isinstance(st.test, ast.Call) and _dotted(st.test.func) == "self._check_convergence" \
+                and len(st.test.args) == 1 and isinstance(st.test.args[0], ast.Name):
+            name = st.test.args[0].id
+            vals = [_src(s[1]) for s in map(_simple_assign, loop.body) if s and s[0] == name]
+            if vals:
+                src = {"mask_accept.mean()": "maskMean", "alpha.mean()": "alphaMean"}.get(vals[-1], "other")
+    it = [st for st in loop.body if isinstance(st, ast.AugAssign) and _src(st.target) == "self.iteration"]
+    if len(it) != 1 or not isinstance(it[0].op, ast.Add):
+        raise Unavailable(f"{where}: not exactly one `self.iteration += …` in the loop")
+    istep = EvRun({}, where).ev(it[0].value)
+    el = _find_method(tree, "BaseMCMCRunner", "_evaluate_likelihood")
+    nc = [n for n in ast.walk(el) if isinstance(n, (ast.AugAssign, ast.Assign))
+          and _src(n.target if isinstance(n, ast.AugAssign) else n.targets[0]) == "self.n_calls"]
+    if len(nc) != 1 or not isinstance(nc[0], ast.AugAssign) or not isinstance(nc[0].op, ast.Add) or nc[0] not in _body(el):
+        raise Unavailable("BaseMCMCRunner._evaluate_likelihood: not exactly one unconditional `self.n_calls += …`")
+    cstep = EvRun({"self.n_walkers": S("nwalkers", {"nwalkers"})}, "BaseMCMCRunner._evaluate_likelihood").ev(nc[0].value)
+    if not isinstance(istep, S) or not isinstance(cstep, S):
+        raise Unavailable("counter increments are not scalars")
+    _need_fv(istep, [], "iteration increment")
+    _need_fv(cstep, ["nwalkers"], "n_calls increment")
+    return {"retEfficiency": exprs[4].lean, "retAcceptance": exprs[5].lean, "returnTuple": slots, "curAccSource": src,
+            "iterStep": f"(Sc.add iter {istep.lean})", "nCallsStep": f"(Sc.add ncalls {cstep.lean})"}
+
+
+_P15 = ["u", "x", "logl", "blobs", "assignments", "beta", "modeStats", "logLikelihood", "priorTransform", "progressBar",
+        "nSteps", "nMax", "periodic", "reflective", "verbose"]
+_Q = "(Sc.div sigma0 (Sc.max (Sc.lit 1 6) wsigma))"
+REFERENCE_RUN = dict(
+    sigma0Of="(Sc.div (Sc.lit 238 2) (ScT.sqrt ndim))",
+    tpcnInitSigma="(Sc.mul (Sc.ofNat 1) (npMinimum sigma0 (Sc.lit 99 2)))",
+    rwmInitSigma="(Sc.mul (Sc.ofNat 1) sigma0)",
+    adaptiveSteps="(Sc.floor (Sc.min (Sc.max (Sc.mul nsteps ndim) (Sc.mul (Sc.mul (Sc.mul nsteps ndim) (Sc.div (Sc.lit 234 3) "
+                  f"(Sc.max (Sc.lit 1 2) acc))) (Sc.mul {_Q} {_Q}))) (Sc.mul nmax ndim)))",
+    convergedRule="(Sc.le steps iter)",
+    weightedSigmaPairing="firstM",
+    retEfficiency="(Sc.div meanSigma sigma0)",
+    retAcceptance="meanAlpha",
+    returnTuple=["u", "x", "logl", "blobs", "efficiency", "acceptance", "iteration", "nCalls"],
+    curAccSource="maskMean",
+    iterStep="(Sc.add iter (Sc.ofNat 1))",
+    nCallsStep="(Sc.add ncalls nwalkers)",
+    dispatchRule=[("sampleEqRwm", "rwmWrapper"), ("otherwise", "tpcnWrapper")],
+    wrapperRunner=[("tpcnWrapper", "tpcnRunner"), ("rwmWrapper", "rwmRunner")],
+    bindTable=[("parallel_mcmc -> parallel_random_walk_metropolis", [(p, p) for p in _P15]),
+               ("parallel_mcmc -> parallel_t_preconditioned_crank_nicolson", [(p, p) for p in _P15]),
+               ("parallel_t_preconditioned_crank_nicolson -> TPCNRunner", [(p, p) for p in _P15]),
+               ("parallel_random_walk_metropolis -> RWMRunner", [(p, p) for p in _P15])],
+    initStores=[("beta", "beta", False), ("modeStats", "modeStats", False), ("logLikelihood", "logLikelihood", False),
+                ("priorTransform", "priorTransform", False), ("progressBar", "progressBar", False), ("nSteps", "nSteps", False),
+                ("nMax", "nMax", False), ("periodic", "periodic", False), ("reflective", "reflective", False),
+                ("verbose", "verbose", False), ("u", "u", True), ("x", "x", True), ("logl", "logl", True),
+                ("blobs", "blobs", True), ("assignments", "assignments", True)],
+    writeSites=[("beta", "baseInit", "assign", "BaseMCMCRunner.__init__: self.beta"),
+                ("modeStats", "baseInit", "assign", "BaseMCMCRunner.__init__: self.mode_stats"),
+                ("nSteps", "baseInit", "assign", "BaseMCMCRunner.__init__: self.n_steps"),
+                ("nMax", "baseInit", "assign", "BaseMCMCRunner.__init__: self.n_max"),
+                ("periodic", "baseInit", "assign", "BaseMCMCRunner.__init__: self.periodic"),
+                ("reflective", "baseInit", "assign", "BaseMCMCRunner.__init__: self.reflective"),
+                ("assignments", "baseInit", "assign", "BaseMCMCRunner.__init__: self.assignments"),
+                ("nWalkers", "baseInit", "assign", "BaseMCMCRunner.__init__: self.n_walkers"),
+                ("nDim", "baseInit", "assign", "BaseMCMCRunner.__init__: self.n_dim"),
+                ("nClusters", "baseInit", "assign", "BaseMCMCRunner.__init__: self.n_clusters"),
+                ("nCalls", "baseInit", "assign", "BaseMCMCRunner.__init__: self.n_calls"),
+                ("sigma0", "baseInit", "assign", "BaseMCMCRunner.__init__: self.sigma_0"),
+                ("sigmas", "baseInit", "assign", "BaseMCMCRunner.__init__: self.sigmas"),
+                ("iteration", "baseInit", "assign", "BaseMCMCRunner.__init__: self.iteration"),
+                ("nCalls", "evaluate", "aug", "BaseMCMCRunner._evaluate_likelihood: self.n_calls"),
+                ("iteration", "run", "aug", "BaseMCMCRunner.run: self.iteration"),
+                ("means", "tpcnInit", "assign", "TPCNRunner.__init__: self.means"),
+                ("dof", "tpcnInit", "assign", "TPCNRunner.__init__: self.degrees_of_freedom"),
+                ("invCovs", "tpcnInit", "assign", "TPCNRunner.__init__: self.inv_covs"),
+                ("cholCovs", "tpcnInit", "assign", "TPCNRunner.__init__: self.chol_covs"),
+                ("sigmas", "tpcnAdapt", "store", "TPCNRunner._adapt_sigma: self.sigmas[c]"),
+                ("cholCovs", "rwmInit", "assign", "RWMRunner.__init__: self.chol_covs"),
+                ("sigmas", "rwmAdapt", "store", "RWMRunner._adapt_sigma: self.sigmas[c]")],
+    selfRefs=[("evaluate", "run", "BaseMCMCRunner.run: self._evaluate_likelihood"),
+              ("adaptSigma", "run", "BaseMCMCRunner.run: self._adapt_sigma"),
+              ("checkConvergence", "run", "BaseMCMCRunner.run: self._check_convergence"),
+              ("calcAdaptive", "checkConv", "BaseMCMCRunner._check_convergence: self._calculate_adaptive_steps"),
+              ("initSigmas", "baseInit", "BaseMCMCRunner.__init__: self._initialize_sigmas"),
+              ("propose", "run", "BaseMCMCRunner.run: self._propose"),
+              ("factor", "run", "BaseMCMCRunner.run: self._compute_acceptance_factor"),
+              ("runLoop", "tpcnWrapper", "parallel_t_preconditioned_crank_nicolson: runner.run"),
+              ("runLoop", "rwmWrapper", "parallel_random_walk_metropolis: runner.run")],
+)
+
+
+def _render_run(v, notes):
+    o = [RUN_PRELUDE]
+    for n in notes:
+        o.append(f"-- FALLBACK (reference of the pinned tree): {n.replace(chr(10), ' ')[:220]}\n")
+    o.append(_def("sigma0Of", ["ndim"], v["sigma0Of"], "BaseMCMCRunner.__init__: `self.sigma_0` as a function of `self.n_dim`"))
+    o.append(_def("tpcnInitSigma", ["sigma0"], v["tpcnInitSigma"], "TPCNRunner._initialize_sigmas: one entry of the returned vector"))
+    o.append(_def("rwmInitSigma", ["sigma0"], v["rwmInitSigma"], "RWMRunner._initialize_sigmas: one entry of the returned vector"))
+    o.append(_def("adaptiveSteps", ["nsteps", "ndim", "nmax", "acc", "wsigma", "sigma0"], v["adaptiveSteps"],
+                  "BaseMCMCRunner._calculate_adaptive_steps (wsigma: the weighted average step size; `int` of a value >= 0 = floor)"))
+    o.append("/-- BaseMCMCRunner._check_convergence: the stopping test -/\ndef convergedRule (iter steps : α) : Bool :=\n  "
+             + v["convergedRule"] + "\n")
+    o.append(_def("retEfficiency", ["meanSigma", "sigma0", "meanAlpha"], v["retEfficiency"],
+                  "BaseMCMCRunner.run: 5th return value (meanSigma = self.sigmas.mean(), meanAlpha = alpha.mean() after the loop)"))
+    o.append(_def("retAcceptance", ["meanSigma", "sigma0", "meanAlpha"], v["retAcceptance"], "BaseMCMCRunner.run: 6th return value"))
+    o.append(_def("iterStep", ["iter"], v["iterStep"], "BaseMCMCRunner.run: `self.iteration` after the first statement of the loop body"))
+    o.append(_def("nCallsStep", ["ncalls", "nwalkers"], v["nCallsStep"], "BaseMCMCRunner._evaluate_likelihood: `self.n_calls` after the call"))
+    o.append(f"/-- which step sizes are averaged in `_calculate_adaptive_steps` -/\ndef weightedSigmaPairing : WPair := .{v['weightedSigmaPairing']}\n")
+    o.append(f"/-- what the stopping rule receives as `current_acceptance` -/\ndef curAccSource : AccSrc := .{v['curAccSource']}\n")
+    o.append("/-- the tuple returned by `run` -/\ndef returnTuple : List RetSlot :=\n  [" + ", ".join("." + s for s in v["returnTuple"]) + "]\n")
+    o.append("/-- `parallel_mcmc`: (condition, callee) of the two branches -/\ndef dispatchRule : List (DCond × DTarget) :=\n  ["
+             + ", ".join(f"(.{c}, .{t})" for c, t in v["dispatchRule"]) + "]\n")
+    o.append("/-- (wrapper, runner class it constructs and runs) -/\ndef wrapperRunner : List (DTarget × DTarget) :=\n  ["
+             + ", ".join(f"(.{c}, .{t})" for c, t in v["wrapperRunner"]) + "]\n")
+    o.append("/-- (call site, [(callee parameter, name passed)]) after Python's argument binding -/\n"
+             "def bindTable : List (String × List (Param × Param)) :=\n  ["
+             + ",\n   ".join(f"({_lean_str(s)}, [" + ", ".join(f"(.{p}, .{a})" for p, a in prs) + "])" for s, prs in v["bindTable"]) + "]\n")
+    o.append("/-- `BaseMCMCRunner.__init__`: (attribute, constructor parameter it is stored from, stored as a copy) -/\n"
+             "def initStores : List (Param × Param × Bool) :=\n  ["
+             + ", ".join(f"(.{a}, .{p}, {'true' if c else 'false'})" for a, p, c in v["initStores"]) + "]\n")
+    o.append("/-- every statement of tempest/mcmc.py that writes a watched attribute: (attribute, function, how, site) -/\n"
+             "def writeSites : List (WAttr × WFn × WHow × String) :=\n  ["
+             + ",\n   ".join(f"(.{a}, .{f}, .{h}, {_lean_str(t)})" for a, f, h, t in v["writeSites"]) + "]\n")
+    o.append("/-- every reference to one of the runner's own methods: (method, function containing the reference, site) -/\n"
+             "def selfRefs : List (WCallee × WFn × String) :=\n  ["
+             + ",\n   ".join(f"(.{c}, .{f}, {_lean_str(t)})" for c, f, t in v["selfRefs"]) + "]\n")
+    return "\n".join(o)
+
+
+def _run_section():
+    """text of the added section; never raises (each group falls back to its reference on `Unavailable`)"""
+    global RUN_STATUS
+    path = os.path.join(common.REPO, SRC)
+    v, notes = dict(REFERENCE_RUN), []
+    try:
+        with open(path) as fh:
+            tree = ast.parse(fh.read(), filename=path)
+    except (OSError, SyntaxError) as e:
+        notes.append(f"cannot read {path}: {e}")
+        tree = None
+    if tree is not None:
+        w, r = _site_tables(tree)
+        v["writeSites"], v["selfRefs"] = w, r
+        for group in (_scalars_init, _scalars_steps, _scalars_return, _dispatch):
+            try:
+                v.update(group(tree))
+            except Unavailable as e:
+                notes.append(str(e))
+    RUN_STATUS = ("G4-kernel-run", "unavailable" if notes else "ok", "; ".join(notes) if notes else "run-loop section generated")
+    return _render_run(v, notes)
+
+
+def run_status():
+    """status tuple of the run-loop section of the last `generate()` call"""
+    return RUN_STATUS
 
 
 if __name__ == "__main__":
